@@ -492,6 +492,16 @@ theorem externalAad_eq_view (crcFn : Nat → Bytes → Bytes) (ctx : AadCtx) :
   | none => simp
   | some its => simp [View.enc, List.append_assoc]
 
+theorem coveredView_ssrc {crcFn : Nat → Bytes → Bytes} {ctx : AadCtx} {v : View}
+    (h : coveredView crcFn ctx = some v) : v.ssrc = ctx.ssrc := by
+  unfold coveredView at h
+  cases h1 : itemsOf crcFn ctx (canonScope ctx.scope) with
+  | none => simp [h1] at h
+  | some its =>
+    simp only [h1, Option.some.injEq] at h
+    subst h
+    rfl
+
 /-! ## Executable versions of the size side conditions (for concrete instances) -/
 
 def lt64 (n : Nat) : Bool := decide (n < 2 ^ 64)
